@@ -36,6 +36,16 @@ is a fixed function of (check, family); the site is ``Msg.Block.Var[ctx]:<where>
      block[v] == the integer, deserialize_var(v) == decoding of the NEW integer (object; pod of the stored raw),
      serialize_var(v, deserialize_var(v)) leaves the raw unchanged (cache-invalidation, sites :assign:<style> /
      :seq:<style>-after-<previous style>:<each|end> + :raw|:stale-object|:stale-pod|:writeback; the witness holds the sequence).
+ (c') wire-first tier 1 for quantised components: every element of every quantised Vector* / packed-quaternion member
+     gets the raws {min, min+1, mid-1, mid, mid+1, max-1, max} + small alphabet (8-bit elements: the complete byte), one
+     component at a time, from an all-lowest and an all-mid-range base of the vector, under both template bases; besides
+     the value-first payload the raw is also written directly at the component's byte position (located by comparing the
+     serializer's own lowest/highest-raw payloads) -> payload-roundtrip, site <member>.[m.]c<i>:<wire>.wire=<raw>.
+ (g) encode history: for every payload entry/context, up to 3 edits of its base value (an unencodable member at a leaf
+     position, kept only if a private writer shows the encode raises after >= 1 byte was written) and one such edit of a
+     different registered serializer; sequences [fail], [fail, fail], [foreign fail], [foreign fail, fail] followed by one
+     of: serialize(value), serialize(pod form), Block.serialize_var -- the bytes must equal what two consecutive
+     encodes produced before any failure (encode-independent, site <key>:after-failed-encode[:foreign]).
  (f) date entries (adapter class DateAdapter) under process TZ in {UTC, America/Los_Angeles, Europe/London,
      Australia/Lord_Howe}, TZ switched with os.environ+time.tzset() only inside dedicated forked workers (hmc.subfieldgen
      .tz_map; replay of a TZ witness forks as well).  Input families: 'boundary' = the int alphabet (date-roundtrip /
